@@ -320,6 +320,8 @@ class LabeledUndirectedGraph : protected LabeledDirectedGraph<EdgeLabel> {
         Edges(const LabeledUndirectedGraph<EdgeLabel> &graph) : graph(graph) {}
 
         constEdgeIterator begin() const {
+            if (graph.getSize() == 0)
+                return end();
             VertexIndex endVertex = getEndVertex(graph);
 
             VertexIndex vertexWithFirstEdge = 0;
@@ -334,6 +336,10 @@ class LabeledUndirectedGraph : protected LabeledDirectedGraph<EdgeLabel> {
         }
         constEdgeIterator end() const {
             VertexIndex lastVertex = getEndVertex(graph);
+            if (graph.getSize() == 0)
+                return constEdgeIterator(
+                    graph, lastVertex, Successors::const_iterator()
+                );
             return constEdgeIterator(
                 graph, lastVertex, graph.getOutNeighbours(lastVertex).end()
             );
